@@ -92,15 +92,22 @@ pub mod c19 {
         } else if bpp == 32 && !compress {
             r.bytes(w * h * 4)
         } else if bpp == 32 {
-            let img = r.bytes(w * h * 4);
+            // half of the pictures come from C09's structured families (flat stretches longer than any one-byte run,
+            // gradients, two-colour patterns), so that every order of the codec occurs in what is painted
+            let img = if r.chance(1, 2) { rdpverif::props::c09::image32(r, w, h).0 } else { r.bytes(w * h * 4) };
             let mut st = Vec::new();
             refrle::encode_planar(&img, w, h, r, &mut st)
         } else if !compress {
             r.bytes(w * h * 2)
         } else {
-            let pal = [r.u16(), r.u16(), 0, 0xffff];
-            let img: Vec<u16> = (0..w * h).map(|_| *r.pick(&pal)).collect();
-            refrle::encode_rle16(&img, w, h, r, 64).0
+            let img: Vec<u16> = if r.chance(1, 2) {
+                rdpverif::props::c09::image16(r, w, h).0
+            } else {
+                let pal = [r.u16(), r.u16(), 0, 0xffff];
+                (0..w * h).map(|_| *r.pick(&pal)).collect()
+            };
+            let max_len = if r.chance(1, 2) { 64 } else { 4000 };
+            refrle::encode_rle16(&img, w, h, r, max_len).0
         };
         match len_mode {
             1 => {
@@ -207,6 +214,11 @@ pub mod c19 {
         // end to end: when the data is a conformant encoding (the independent reference decoder accepts it and it
         // has no surplus bytes), what is painted must be the picture that was sent
         let reference: Option<Vec<u32>> = reference_image(c);
+        if let (None, Some(rf)) = (&src, &reference) {
+            // the independent decoder reads the data as a w x h picture; the code that paints it must not refuse it
+            rep.hist("conformant-bitmap-refused");
+            return Verdict::Violation(format!("C19/bpp{}/{}/refused-a-conformant-bitmap", c.bpp, if c.compress { "rle" } else { "raw" }), format!("{}x{} image, {} data bytes: the independent decoding yields {} pixels, the decoder used for painting refuses the bitmap", c.img_w, c.img_h, c.data.len(), rf.len()));
+        }
         if let (Some(s), Some(rf)) = (&src, &reference) {
             if s != rf {
                 let pos = s.iter().zip(rf.iter()).position(|(a, b)| a != b).unwrap_or(s.len().min(rf.len()));
